@@ -621,3 +621,32 @@ impl<'de> Deserialize<'de> for PVal {
         Ok(PVal::make(w >> 40, 0))
     }
 }
+
+// ---------------------------------------------------------------- a `Copy` key (for `Extend<&T>`)
+
+/// A plain `Copy` key: the only kind of element `Extend<&'a T>` accepts. It has an instrumented
+/// `==` and a magic word, but no identity in the ledger (it is duplicated bit by bit).
+#[derive(Clone, Copy)]
+#[repr(C)]
+pub struct CKey {
+    magic: u32,
+    pub class: u32,
+    pub tag: u32,
+}
+
+impl CKey {
+    pub fn new(class: u32, tag: u32) -> Self {
+        CKey { magic: MAGIC_K, class, tag }
+    }
+    pub fn peek(&self) -> Peek {
+        Peek { bad: badness(self.magic, MAGIC_K), id: (1u64 << 38) | self.tag as u64, class: self.class, tag: self.tag, kind: 0, anon: false, plain: true }
+    }
+}
+
+impl PartialEq for CKey {
+    fn eq(&self, o: &Self) -> bool {
+        let (a, b) = (self.peek(), o.peek());
+        env::eq(Cb::EqK, a.bad == 0 && b.bad == 0 && a.class == b.class, &a, &b)
+    }
+}
+impl Eq for CKey {}
